@@ -24,11 +24,13 @@ META = {
 PATHS = ["/a", "/a/b", "/c", "/a/b/d"]
 SPELL = [lambda p: p, lambda p: p[0] + p[1:].replace("/", "//") if "/" in p[1:] else p + "//", lambda p: p + "/", lambda p: p.replace("/a", "/a/.", 1) if p.startswith("/a") else p + "/.", lambda p: "/c/.." + p]
 OPS = ["contains", "getitem", "remove", "discard", "difference", "difference_update", "intersection", "intersection_update", "union", "update", "symmetric_difference", "issubset", "issuperset", "isdisjoint"]
-KINDS = ["entries", "strings", "pyset-strings", "contentsSet", "iterator-entries"]
+KINDS = ["entries", "strings", "pyset-strings", "contentsSet", "iterator-entries", "strings-dup", "entries+strings"]
 
 
 def mk(p, tag="L"):
-    if p == "/a/b/d" or p == "/c":
+    if p == "/c":
+        return fs.fsSymlink(p, "a", strict=False, mtime=1 if tag == "L" else 2)
+    if p == "/a/b/d" or p == "/c/e":
         return fs.fsFile(p, strict=False, mtime=1 if tag == "L" else 2)
     return fs.fsDir(p, strict=False, mtime=1 if tag == "L" else 2)
 
@@ -68,6 +70,11 @@ class SetHarness(Harness):
             arg = set(spelled)
         elif kind == "contentsSet":
             arg = contents.contentsSet([mk(p, "R") for p in R])
+        elif kind == "strings-dup":
+            # the same path named twice, in two spellings
+            arg = list(spelled) + [SPELL[2](p) for p in R]
+        elif kind == "entries+strings":
+            arg = [mk(p, "R") for p in R] + list(spelled)
         else:
             arg = iter([mk(p, "R") for p in R])
         single = (arg[0] if isinstance(arg, list) and arg else None)
@@ -103,7 +110,7 @@ class SetHarness(Harness):
                 out["got"] = getattr(left, op)(arg)
                 out["want"] = {"issubset": set(L) <= set(Rn), "issuperset": set(L) >= set(Rn), "isdisjoint": not (set(L) & set(Rn))}[op]
                 return out
-            if op in ("update", "union", "symmetric_difference") and kind in ("strings", "pyset-strings"):
+            if op in ("update", "union", "symmetric_difference") and kind in ("strings", "pyset-strings", "strings-dup", "entries+strings"):
                 # operations that add members need entries; path strings are outside the claim
                 return {"skip": True}
             res = getattr(left, op)(arg)
@@ -134,11 +141,11 @@ class StructHarness(Harness):
     """change_offset / insert_offset / add_missing_directories"""
 
     def setup(self, eng):
-        return {"left": [eng.bool(f"l{i}") for i in range(4)], "off": eng.int("off", 0, 3)}
+        return {"left": [eng.bool(f"l{i}") for i in range(5)], "off": eng.int("off", 0, 3)}
 
     def body(self, inp):
         c = core.fix(inp) if core.ENG is not None else inp
-        L = [p for p, on in zip(PATHS, c["left"]) if on]
+        L = [p for p, on in zip(PATHS + ["/c/e"], c["left"]) if on]
         OFFS = [("/", "/o"), ("/a", "/z"), ("/a/", "/"), ("/", "/o/p/")]
         old, new = OFFS[c["off"]]
         cs = contents.contentsSet([mk(p) for p in L], mutable=True)
